@@ -272,26 +272,33 @@ Section PackProofs.
     | EvPush RManifest _ _ => False
     end.
 
+  (* ... and that concern descriptor d *)
+  Definition own (d : desc) (ev : event) : Prop :=
+    blob_ev ev /\ (ev = EvExists d \/ ev = EvPush RBlob d empty_json).
+
   Lemma pine_spec tc fa s d s' ok :
     blob_desc d ->
     push_if_not_exist tc fa s d empty_json = (s', ok) ->
-    exists evs, steps s s' evs /\ Forall blob_ev evs /\
+    exists evs, steps s s' evs /\ Forall (own d) evs /\
                 (ok = false -> may_fail tc fa) /\
                 (ok = true -> stored (t_key tc) (s_store s') d = true).
   Proof.
-    intros Bd. unfold push_if_not_exist. destruct (t_exists tc).
+    intros Bd.
+    assert (OX : own d (EvExists d)) by (split; [exact Bd | left; reflexivity]).
+    assert (OP : own d (EvPush RBlob d empty_json)) by (split; [split; auto | right; reflexivity]).
+    unfold push_if_not_exist. destruct (t_exists tc).
     - destruct (do_exists tc fa s d) as [s1 r] eqn:E. apply do_exists_spec in E as (S1 & F1 & T1).
       destruct r as [[|]|].
       + intros [= <- <-]. exists [EvExists d]. split; [exact S1|].
-        split; [constructor; [exact Bd | constructor]|]. split; [discriminate | auto].
+        split; [constructor; [exact OX | constructor]|]. split; [discriminate | auto].
       + intro P. apply do_push_spec in P as (S2 & F2 & T2).
         exists ([EvExists d] ++ [EvPush RBlob d empty_json]). split; [eapply steps_trans; eauto|].
-        split; [|split; auto]. constructor; [exact Bd|]. constructor; [split; auto | constructor].
+        split; [|split; auto]. constructor; [exact OX|]. constructor; [exact OP | constructor].
       + intros [= <- <-]. exists [EvExists d]. split; [exact S1|].
-        split; [constructor; [exact Bd | constructor]|]. split; [auto | discriminate].
+        split; [constructor; [exact OX | constructor]|]. split; [auto | discriminate].
     - intro P. apply do_push_spec in P as (S2 & F2 & T2).
       exists [EvPush RBlob d empty_json]. split; [exact S2|]. split; [|split; auto].
-      constructor; [split; auto | constructor].
+      constructor; [exact OP | constructor].
   Qed.
 
   (* ---------------------------------------------------------------- *)
@@ -378,6 +385,19 @@ Section PackProofs.
             | _ => m_at m
             end) no_extra.
 
+  (* the storage operations before the manifest push: on "{}", for a descriptor Pack invented *)
+  Definition inv_ev (f : fn) (at_ : str) (o : opts) (ev : event) : Prop :=
+    blob_ev ev /\ exists d, In d (invented f at_ o) /\ (ev = EvExists d \/ ev = EvPush RBlob d empty_json).
+
+  Lemma own_inv f at_ o d evs :
+    In d (invented f at_ o) -> Forall (own d) evs -> Forall (inv_ev f at_ o) evs.
+  Proof.
+    intros I F. eapply Forall_impl; [|exact F]. intros ev [B E]. split; [exact B | exists d; auto].
+  Qed.
+
+  Lemma inv_blob f at_ o evs : Forall (inv_ev f at_ o) evs -> Forall blob_ev evs.
+  Proof. intro F. eapply Forall_impl; [|exact F]. intros ev [B _]. exact B. Qed.
+
   Inductive outcome (f : fn) (tc : tcfg) (fa : option nat) (s : state) (at_ : str) (o : opts) (now : str)
     : state -> result -> Prop :=
   | OutReject e :
@@ -386,23 +406,23 @@ Section PackProofs.
   | OutBadCreated s' evs :
       must_reject f at_ o = false ->
       ensure_created (o_ann o) (created_key f) now = None ->
-      steps s s' evs -> Forall blob_ev evs ->
+      steps s s' evs -> Forall (inv_ev f at_ o) evs ->
       outcome f tc fa s at_ o now s' (Err EInvalidDateTime)
   | OutFaultBlob s' evs :
       must_reject f at_ o = false -> may_fail tc fa ->
-      steps s s' evs -> Forall blob_ev evs ->
+      steps s s' evs -> Forall (inv_ev f at_ o) evs ->
       outcome f tc fa s at_ o now s' (Err EInjected)
   | OutFaultManifest s' evs ann m :
       must_reject f at_ o = false -> may_fail tc fa ->
       ensure_created (o_ann o) (created_key f) now = Some ann ->
       m = requested_manifest f at_ o ann ->
-      steps s s' (evs ++ [EvPush RManifest (result_desc f m) (marshal m)]) -> Forall blob_ev evs ->
+      steps s s' (evs ++ [EvPush RManifest (result_desc f m) (marshal m)]) -> Forall (inv_ev f at_ o) evs ->
       outcome f tc fa s at_ o now s' (Err EInjected)
   | OutOk s' evs ann m :
       must_reject f at_ o = false ->
       ensure_created (o_ann o) (created_key f) now = Some ann ->
       m = requested_manifest f at_ o ann ->
-      steps s s' (evs ++ [EvPush RManifest (result_desc f m) (marshal m)]) -> Forall blob_ev evs ->
+      steps s s' (evs ++ [EvPush RManifest (result_desc f m) (marshal m)]) -> Forall (inv_ev f at_ o) evs ->
       stored (t_key tc) (s_store s') (result_desc f m) = true ->
       Forall (fun x => stored (t_key tc) (s_store s') x = true) (invented f at_ o) ->
       outcome f tc fa s at_ o now s' (Ok (result_desc f m) m).
@@ -429,7 +449,7 @@ Section PackProofs.
   Lemma pcec_spec tc fa s mt ann s' r :
     push_custom_empty_config H tc fa s mt ann = (s', r) ->
     forall d, d = with_ann (desc_from_bytes H mt empty_json) ann ->
-    exists evs, steps s s' evs /\ Forall blob_ev evs /\
+    exists evs, steps s s' evs /\ Forall (own d) evs /\
       (r = Some d /\ stored (t_key tc) (s_store s') d = true \/ r = None /\ may_fail tc fa).
   Proof.
     unfold push_custom_empty_config. intros P d ->.
@@ -465,7 +485,7 @@ Section PackProofs.
   Lemma final_outcome f tc fa s at_ o now s1 evs ann m at' s' r :
     must_reject f at_ o = false ->
     ensure_created (o_ann o) (created_key f) now = Some ann ->
-    steps s s1 evs -> Forall blob_ev evs ->
+    steps s s1 evs -> Forall (inv_ev f at_ o) evs ->
     Forall (fun x => stored (t_key tc) (s_store s1) x = true) (invented f at_ o) ->
     m = requested_manifest f at_ o ann ->
     at' = d_at (result_desc f m) ->
@@ -484,7 +504,7 @@ Section PackProofs.
   (* the common tail: fill in created, marshal, push the manifest *)
   Lemma tail_outcome f tc fa s at_ o now s1 evs (m_of : list kv -> manifest) at' s' r :
     must_reject f at_ o = false ->
-    steps s s1 evs -> Forall blob_ev evs ->
+    steps s s1 evs -> Forall (inv_ev f at_ o) evs ->
     Forall (fun x => stored (t_key tc) (s_store s1) x = true) (invented f at_ o) ->
     (forall ann, m_of ann = requested_manifest f at_ o ann) ->
     (forall ann, at' = d_at (result_desc f (requested_manifest f at_ o ann))) ->
@@ -500,6 +520,9 @@ Section PackProofs.
       rewrite Em. apply Eat.
     - injection P as <- <-. apply (OutBadCreated f tc fa s at_ o now s1 evs); auto.
   Qed.
+
+  Ltac own2inv B :=
+    eapply own_inv; [|exact B]; try (match goal with x := _ |- _ => subst x end); simpl; auto.
 
   Lemma rc2_outcome tc fa s at_ o now s' r :
     pack_rc2 marshal H tc fa s at_ o now = (s', r) -> outcome FRC2 tc fa s at_ o now s' r.
@@ -522,12 +545,12 @@ Section PackProofs.
       + destruct (ensure_created ann0 AnnotationCreated now) as [ann|] eqn:EC.
         * intro P. destruct (push_manifest_spec _ _ _ _ _ _ _ P _ eq_refl) as (S1 & [(-> & St) | (-> & F)]).
           -- apply (OutOk FRC2 tc fa s at_ o now s' evs ann (requested_manifest FRC2 at_ o ann));
-               [reflexivity | exact EC | reflexivity | eapply steps_trans; eauto | exact B0 | exact St |].
+               [reflexivity | exact EC | reflexivity | eapply steps_trans; eauto | own2inv B0 | exact St |].
              constructor; [|constructor]. eapply stored_steps; eauto.
           -- apply (OutFaultManifest FRC2 tc fa s at_ o now s' evs ann (requested_manifest FRC2 at_ o ann));
-               [reflexivity | exact F | exact EC | reflexivity | eapply steps_trans; eauto | exact B0].
-        * intros [= <- <-]. apply (OutBadCreated FRC2 tc fa s at_ o now s1 evs); auto.
-      + intros [= <- <-]. apply (OutFaultBlob FRC2 tc fa s at_ o now s1 evs); auto.
+               [reflexivity | exact F | exact EC | reflexivity | eapply steps_trans; eauto | own2inv B0].
+        * intros [= <- <-]. apply (OutBadCreated FRC2 tc fa s at_ o now s1 evs); auto; try (own2inv B0).
+      + intros [= <- <-]. apply (OutFaultBlob FRC2 tc fa s at_ o now s1 evs); auto; try (own2inv B0).
   Qed.
 
   Lemma v1_0_outcome tc fa s at_ o now s' r :
@@ -554,9 +577,9 @@ Section PackProofs.
         * intro P.
           apply (tail_outcome FV10 tc fa s [] o now s1 evs (fun ann => requested_manifest FV10 [] o ann)
                               MediaTypeUnknownConfig);
-            [ reflexivity | exact S0 | exact B0 | constructor; [exact St0 | constructor]
+            [ reflexivity | exact S0 | own2inv B0 | constructor; [exact St0 | constructor]
             | reflexivity | reflexivity | exact P ].
-        * intros [= <- <-]. apply (OutFaultBlob FV10 tc fa s [] o now s1 evs); auto.
+        * intros [= <- <-]. apply (OutFaultBlob FV10 tc fa s [] o now s1 evs); auto; try (own2inv B0).
       + pose (o := mkOpts None lay ann0 None cann).
         destruct (valid_media_type (a0 :: at_)) eqn:V.
         * destruct (push_custom_empty_config H tc fa s (a0 :: at_) cann) as [s1 [c|]] eqn:PC;
@@ -566,9 +589,9 @@ Section PackProofs.
              apply (tail_outcome FV10 tc fa s (a0 :: at_) o now s1 evs
                                  (fun ann => requested_manifest FV10 (a0 :: at_) o ann) (a0 :: at_));
                [ mr V
-               | exact S0 | exact B0 | constructor; [exact St0 | constructor]
+               | exact S0 | own2inv B0 | constructor; [exact St0 | constructor]
                | reflexivity | reflexivity | exact P ].
-          -- intros [= <- <-]. apply (OutFaultBlob FV10 tc fa s (a0 :: at_) o now s1 evs); auto.
+          -- intros [= <- <-]. apply (OutFaultBlob FV10 tc fa s (a0 :: at_) o now s1 evs); auto; try (own2inv B0).
              mr V.
         * intros [= <- <-]. apply OutReject; [|right; left; reflexivity].
           mr V.
@@ -606,29 +629,32 @@ Section PackProofs.
       + (* empty, non-nil layers: push the placeholder layer *)
         destruct (push_if_not_exist tc fa s DescriptorEmptyJSON empty_json) as [s2 ok] eqn:PL.
         destruct (pine_spec _ _ _ _ _ _ blob_desc_empty0 PL) as (evs & S0 & B0 & F0 & T0).
+        assert (B0' : Forall (inv_ev FV11 at_ o) evs) by (own2inv B0).
         destruct ok.
-        * intro P. apply (final_outcome FV11 tc fa s at_ o now s2 evs ann (requested_manifest FV11 at_ o ann) at_ s' r MR EC S0 B0); 
+        * intro P. apply (final_outcome FV11 tc fa s at_ o now s2 evs ann (requested_manifest FV11 at_ o ann) at_ s' r MR EC S0 B0'); 
             [ constructor; [auto | constructor] | reflexivity | reflexivity | exact P ].
-        * intros [= <- <-]. apply (OutFaultBlob FV11 tc fa s at_ o now s2 evs); auto.
+        * intros [= <- <-]. apply (OutFaultBlob FV11 tc fa s at_ o now s2 evs); auto; try (own2inv B0).
       + intro P. apply (final_outcome FV11 tc fa s at_ o now s [] ann (requested_manifest FV11 at_ o ann) at_ s' r MR EC (steps_refl s));
           [ constructor | constructor | reflexivity | reflexivity | exact P ].
       + destruct (push_if_not_exist tc fa s DescriptorEmptyJSON empty_json) as [s2 ok] eqn:PL.
         destruct (pine_spec _ _ _ _ _ _ blob_desc_empty0 PL) as (evs & S0 & B0 & F0 & T0).
+        assert (B0' : Forall (inv_ev FV11 at_ o) evs) by (own2inv B0).
         destruct ok.
-        * intro P. apply (final_outcome FV11 tc fa s at_ o now s2 evs ann (requested_manifest FV11 at_ o ann) at_ s' r MR EC S0 B0); 
+        * intro P. apply (final_outcome FV11 tc fa s at_ o now s2 evs ann (requested_manifest FV11 at_ o ann) at_ s' r MR EC S0 B0'); 
             [ constructor; [auto | constructor] | reflexivity | reflexivity | exact P ].
-        * intros [= <- <-]. apply (OutFaultBlob FV11 tc fa s at_ o now s2 evs); auto.
+        * intros [= <- <-]. apply (OutFaultBlob FV11 tc fa s at_ o now s2 evs); auto; try (own2inv B0).
     - pose (o := mkOpts subj lay ann0 None cann). intro MRE.
       assert (MR : must_reject FV11 at_ o = false) by (refine (eq_trans MRE _); reflexivity).
       destruct (push_if_not_exist tc fa s (with_ann DescriptorEmptyJSON cann) empty_json) as [s1 ok] eqn:PC.
       destruct (pine_spec _ _ _ _ _ _ (blob_desc_empty cann) PC) as (evs & S0 & B0 & F0 & T0).
+      assert (B0' : Forall (inv_ev FV11 at_ o) evs) by (own2inv B0).
       destruct ok.
-      2:{ intros [= <- <-]. apply (OutFaultBlob FV11 tc fa s at_ o now s1 evs); auto. }
+      2:{ intros [= <- <-]. apply (OutFaultBlob FV11 tc fa s at_ o now s1 evs); auto; try (own2inv B0). }
       specialize (T0 eq_refl).
       destruct (ensure_created ann0 AnnotationCreated now) as [ann|] eqn:EC.
-      2:{ intros [= <- <-]. apply (OutBadCreated FV11 tc fa s at_ o now s1 evs); auto. }
+      2:{ intros [= <- <-]. apply (OutBadCreated FV11 tc fa s at_ o now s1 evs); auto; try (own2inv B0). }
       destruct lay as [[|d0 l0]|]; cbn [layers_or_empty]; intro P;
-        apply (final_outcome FV11 tc fa s at_ o now s1 evs ann (requested_manifest FV11 at_ o ann) at_ s' r MR EC S0 B0);
+        apply (final_outcome FV11 tc fa s at_ o now s1 evs ann (requested_manifest FV11 at_ o ann) at_ s' r MR EC S0 B0');
         try reflexivity; try exact P.
       + constructor; [exact T0|]. constructor; [|constructor]. apply (stored_untitled _ _ _ cann); [reflexivity | exact T0].
       + constructor; [exact T0|]. constructor.
@@ -660,6 +686,8 @@ Section PackProofs.
   (* ---------------------------------------------------------------- *)
   (* 6. the property                                                   *)
   (* ---------------------------------------------------------------- *)
+
+  Ltac to_blob := repeat match goal with Hh : Forall (inv_ev _ _ _) _ |- _ => apply inv_blob in Hh end.
 
   (* 6a. rejection happens before any storage operation *)
   Theorem reject_before_push f tc fa s at_ o now :
@@ -704,7 +732,7 @@ Section PackProofs.
   Proof.
     intros G R P.
     assert (EC : ensure_created (o_ann o) (created_key f) now = None) by (apply ensure_created_none; eauto).
-    apply pack_outcome in P. inversion P; subst; try congruence.
+    apply pack_outcome in P. inversion P; subst; try congruence; to_blob.
     - split; [exists e; split; [reflexivity | congruence]|].
       split; [exists []; split; [apply steps_refl | constructor]|].
       exists []. split; [now rewrite app_nil_r | constructor].
@@ -725,7 +753,33 @@ Section PackProofs.
       stored (t_key tc) (s_store s') d = true /\
       Forall (fun x => stored (t_key tc) (s_store s') x = true) (invented f at_ o).
   Proof.
-    intro P. apply pack_outcome in P. inversion P; subst. exists ann, evs. auto 10.
+    intro P. apply pack_outcome in P. inversion P; subst. to_blob. exists ann, evs. auto 10.
+  Qed.
+
+  (* which storage operations a successful call issues: Exists / Push of "{}" for descriptors it
+     invented -- nothing else -- and then the push of the manifest *)
+  Theorem ok_operations f tc fa s at_ o now s' d m :
+    pack marshal H f tc fa s at_ o now = (s', Ok d m) ->
+    exists evs, s_events s' = s_events s ++ evs ++ [EvPush RManifest d (marshal m)] /\
+                Forall (inv_ev f at_ o) evs.
+  Proof.
+    intro P. apply pack_outcome in P. inversion P; subst. exists evs.
+    match goal with Hs : steps _ _ _ |- _ => destruct Hs as (E & _) end. split; auto.
+  Qed.
+
+  (* ... and a failing call issues at most such operations and the manifest push *)
+  Theorem err_operations f tc fa s at_ o now s' e :
+    pack marshal H f tc fa s at_ o now = (s', Err e) ->
+    exists evs, Forall (inv_ev f at_ o) evs /\
+                (s_events s' = s_events s ++ evs \/
+                 exists d m, s_events s' = s_events s ++ evs ++ [EvPush RManifest d (marshal m)]).
+  Proof.
+    intro P. apply pack_outcome in P. inversion P; subst.
+    - exists []. split; [constructor | left; now rewrite app_nil_r].
+    - exists evs. match goal with Hs : steps _ _ _ |- _ => destruct Hs as (E & _) end. split; auto.
+    - exists evs. match goal with Hs : steps _ _ _ |- _ => destruct Hs as (E & _) end. split; auto.
+    - exists evs. match goal with Hs : steps _ _ _ |- _ => destruct Hs as (E & _) end. split; auto.
+      right. eauto.
   Qed.
 
   Lemma requested_ann f at_ o ann : m_ann (requested_manifest f at_ o ann) = ann.
@@ -777,7 +831,7 @@ Section PackProofs.
     pack marshal H f tc fa s at_ o now = (s', r) ->
     exists evs, steps s s' evs /\ Forall consistent_ev evs.
   Proof.
-    intro P. apply pack_outcome in P. inversion P; subst.
+    intro P. apply pack_outcome in P. inversion P; subst; to_blob.
     - exists []. split; [apply steps_refl | constructor].
     - exists evs. split; auto. eapply Forall_impl; [|eassumption]. apply blob_ev_consistent.
     - exists evs. split; auto. eapply Forall_impl; [|eassumption]. apply blob_ev_consistent.
